@@ -109,12 +109,14 @@ fn sockdir() -> String {
     d
 }
 
-fn udp_wire() -> (Wire, std::net::SocketAddr, UdpSocket) {
+/// The sinks are given TWO addresses: the receiver first, the decoy second. "The address given at
+/// construction" is the first one the argument resolves to (get_addr), so the decoy must stay empty.
+fn udp_wire() -> (Wire, Vec<std::net::SocketAddr>, UdpSocket) {
     let r = UdpSocket::bind("127.0.0.1:0").unwrap();
     r.set_nonblocking(true).unwrap();
     let d = UdpSocket::bind("127.0.0.1:0").unwrap();
     d.set_nonblocking(true).unwrap();
-    let addr = r.local_addr().unwrap();
+    let addr = vec![r.local_addr().unwrap(), d.local_addr().unwrap()];
     let s = UdpSocket::bind("127.0.0.1:0").unwrap();
     (Wire::Udp(r, d), addr, s)
 }
@@ -180,7 +182,7 @@ pub fn drive(a: &Args) {
     let mut rng = StdRng::seed_from_u64(seed ^ 0x50c2_0006);
     let mut calls = 0u64;
     let mut sample = json!(null);
-    let kinds = ["udp", "unix", "budp", "bunix", "bunix-nb", "unix-nb", "budp-default", "q-budp"];
+    let kinds = ["udp", "unix", "budp", "bunix", "bunix-nb", "unix-nb", "budp-default", "q-budp", "bunix-default"];
     for run in 0..runs {
         let kind = kinds[(run as usize) % kinds.len()];
         let caps = [0usize, 1, 5, 16, 40, 64, 100, 512, 1432, 70_000];
@@ -191,25 +193,29 @@ pub fn drive(a: &Args) {
         let (wire, sink, mcap): (Wire, Box<dyn MetricSink + Send + Sync>, usize) = match kind {
             "udp" => {
                 let (w, addr, s) = udp_wire();
-                (w, Box::new(UdpMetricSink::from(addr, s).unwrap()), 0)
+                (w, Box::new(UdpMetricSink::from(&addr[..], s).unwrap()), 0)
             }
             "budp" => {
                 let (w, addr, s) = udp_wire();
-                (w, Box::new(BufferedUdpMetricSink::with_capacity(addr, s, cap).unwrap()), cap)
+                (w, Box::new(BufferedUdpMetricSink::with_capacity(&addr[..], s, cap).unwrap()), cap)
             }
             "budp-default" => {
                 let (w, addr, s) = udp_wire();
-                (w, Box::new(BufferedUdpMetricSink::from(addr, s).unwrap()), 512)
+                (w, Box::new(BufferedUdpMetricSink::from(&addr[..], s).unwrap()), 512)
             }
             "q-budp" => {
                 // flush and stats are read THROUGH client -> queuing wrapper -> sink (C06, C14 delegations);
                 // emits go to the inner sink directly so that each call is synchronous
                 let (w, addr, s) = udp_wire();
-                let inner: Arc<BufferedUdpMetricSink> = Arc::new(BufferedUdpMetricSink::with_capacity(addr, s, cap).unwrap());
+                let inner: Arc<BufferedUdpMetricSink> = Arc::new(BufferedUdpMetricSink::with_capacity(&addr[..], s, cap).unwrap());
                 weak = Some(Arc::downgrade(&inner));
                 let q = QueuingMetricSink::from(ArcSink(inner.clone()));
                 let client = StatsdClient::from_sink("", ViaQueue(q));
                 (w, Box::new(Delegating { inner, client }), cap)
+            }
+            "bunix-default" => {
+                let (w, p, s) = unix_wire(&format!("{}", run));
+                (w, Box::new(BufferedUnixMetricSink::from(&p, s)), 512)
             }
             "unix" | "unix-nb" => {
                 let (w, p, s) = unix_wire(&format!("{}", run));
@@ -234,6 +240,7 @@ pub fn drive(a: &Args) {
         let mut seq = 0u64;
         let errkind = if kind.contains("udp") { "Uncategorized" } else { "WouldBlock" };
         let mut stray = 0usize;
+        let mut missed = false;
         take_hooks();
         let mut wire = wire;
         let mut old_receivers: Vec<UnixDatagram> = vec![];
@@ -294,7 +301,13 @@ pub fn drive(a: &Args) {
             }
             if drain_now {
                 let want = outstanding.len().min(if matches!(r, Ok(Ok(_))) { 1 } else { 0 });
-                let got = wire.drain(want, Duration::from_millis(if want > 0 { 2000 } else { 0 }));
+                // generous wait for a datagram that must arrive; once one was missed in this run the sink is
+                // broken anyway and the following waits are kept short
+                let grace = if want == 0 { 0 } else if missed { 20 } else { 2000 };
+                let got = wire.drain(want, Duration::from_millis(grace));
+                if got.len() < want {
+                    missed = true;
+                }
                 stray += resolve(&mut evs, &mut outstanding, got, errkind).len();
             }
             match r {
@@ -429,7 +442,7 @@ pub fn conc(a: &Args) {
             // (each thread counts its own Ok / Err results and bytes), then stats() is read at quiescence
             let (wire, sink): (Wire, Arc<DynSink>) = if kind == "bulk-udp" {
                 let (w, addr, s) = udp_wire();
-                (w, Arc::new(UdpMetricSink::from(addr, s).unwrap()))
+                (w, Arc::new(UdpMetricSink::from(&addr[..], s).unwrap()))
             } else {
                 // nothing is bound at the path: every send is refused
                 let (w, p, s) = unix_wire(&format!("b{}", run));
@@ -484,7 +497,7 @@ pub fn conc(a: &Args) {
             }
             "budp" => {
                 let (w, addr, s) = udp_wire();
-                (w, Arc::new(BufferedUdpMetricSink::with_capacity(addr, s, cap).unwrap()))
+                (w, Arc::new(BufferedUdpMetricSink::with_capacity(&addr[..], s, cap).unwrap()))
             }
             "bunix" => {
                 let (w, p, s) = unix_wire(&format!("c{}", run));
@@ -492,7 +505,7 @@ pub fn conc(a: &Args) {
             }
             "udp" => {
                 let (w, addr, s) = udp_wire();
-                (w, Arc::new(UdpMetricSink::from(addr, s).unwrap()))
+                (w, Arc::new(UdpMetricSink::from(&addr[..], s).unwrap()))
             }
             _ => {
                 let (w, p, s) = unix_wire(&format!("c{}", run));
@@ -738,7 +751,7 @@ pub fn stack(a: &Args) {
         let n = rng.random_range(5..=80u64);
         let (wire, q): (Wire, QueuingMetricSink) = if udp {
             let (w, addr, s) = udp_wire();
-            let inner = LogSink { inner: BufferedUdpMetricSink::with_capacity(addr, s, cap).unwrap() };
+            let inner = LogSink { inner: BufferedUdpMetricSink::with_capacity(&addr[..], s, cap).unwrap() };
             (w, match qcap { Some(c) => QueuingMetricSink::with_capacity(inner, c), None => QueuingMetricSink::from(inner) })
         } else {
             let (rx, s) = BufferedSpyMetricSink::with_capacity(None, Some(cap));
